@@ -54,7 +54,7 @@ def run(c):
         c.record("sibling-rejections", "R7", None, d, "violation", [], ["rejection sites per verifier: %s" % counts], key_detail="siblings")
     else:
         c.record("sibling-rejections", "R7", None, d, "hold", ["%s: %d" % x for x in sorted(counts.items())])
-    c.r1("cuckatoo-delegates", "<grin_core::pow::cuckatoo::CuckatooContext as grin_core::pow::types::PoWContext>::verify", POW + "cuckatoo::CuckatooContext::verify_impl", via=0)
+    c.r1("cuckatoo-delegates", "<grin_core::pow::cuckatoo::CuckatooContext as grin_core::pow::types::PoWContext>::verify", POW + "cuckatoo::CuckatooContext::verify_impl", via=2)
     # the walk of every verifier is bounded: impls of PoWContext::verify are exactly these five
     impls = sorted(k for k in F.fns if k.endswith(" as grin_core::pow::types::PoWContext>::verify"))
     if len(impls) != 5:
@@ -88,8 +88,8 @@ def run(c):
         c.lost("variant-table", "R7", CP, d, "function not found")
     # --- verify_size
     VS = POW + "verify_size"
-    c.r1("verify-after-set-header", VS, POW + "types::PoWContext::set_header_nonce", sink=POW + "types::PoWContext::verify", via=0)
-    c.r1("verify-size-verifies", VS, POW + "types::PoWContext::verify", via=0)
+    c.r1("verify-after-set-header", VS, POW + "types::PoWContext::set_header_nonce", sink=POW + "types::PoWContext::verify", via=2)
+    c.r1("verify-size-verifies", VS, POW + "types::PoWContext::verify", via=2)
     c.r2_arg("ctx-edge-bits", VS, "grin_core::global::create_pow_context", 1, must=["call:ProofOfWork::edge_bits", "arg0.pow"])
     c.r2_arg("ctx-proof-len", VS, "grin_core::global::create_pow_context", 2, must=["call:Vec::len", "arg0.pow.proof.nonces"])
     c.r2_arg("ctx-height", VS, "grin_core::global::create_pow_context", 0, must=["arg0.height"])
